@@ -13,7 +13,7 @@ RULE = ("arrays with 1-3 channels and extents 1..9 per axis (odd, even, size 1),
         "float32, factors {1,2}^3 for averaging and {1,2,3,4}^3 for majority/striding, value patterns "
         "(0/1/type max/max-1/2^24±1/random/few labels/half-half ties with the larger label first), outside "
         "values None, 0, 1, 7, 255, type max, 0.5, methods obtained by name or as `auto` + info type; real Downscaler.downscale vs exact oracle (Fractions) and "
-        "vs the Lean model; thorough adds all shapes <= 4^3 x all factor triples. Trivial = all factors 1.")
+        "vs the Lean model (selection by Down.getDownscaler, voxels by Sel.voxel); thorough adds all shapes <= 4^3 x all factor triples. Trivial = all factors 1.")
 ASSUMPTIONS = [
     "float64 arithmetic is exact on integer data below 2^50 (sums of 8 values, halvings)",
     "float32 data: when the exponents of a block's values span so few bits that float64 sums are exact, the result "
@@ -232,9 +232,26 @@ def run(ctx):
             # Lean model (integer data; integer outside value)
             if dt != "float32" and (outside is None or float(outside).is_integer()) and not big:
                 o = "none" if outside is None else str(int(outside))
-                reqs.append(f"down {method} {dt} {core.ilist(shape[1:])} {factors[2]},{factors[1]},{factors[0]} {o} "
+                # selection and options go through the model too (Down.getDownscaler, then Sel.voxel)
+                ity = "-" if spelled != "auto" else ("image" if method == "average" else "segmentation")
+                reqs.append(f"down-sel {spelled} {ity} {dt} {core.ilist(shape[1:])} {factors[2]},{factors[1]},{factors[0]} {o} "
                             + core.ilist(int(v) for v in a[c].ravel()))
                 meta.append((desc, c, core.ilist(out.shape[1:]) + " " + core.ilist(int(v) for v in out[c].ravel())))
+    # names the selection does not know: NotImplementedError <-> the model's `none`
+    for name in ("nearest", "Average", "", "mean"):
+        try:
+            downscaling.get_downscaler(name, {"type": "image"}, {})
+            got = "accepted"
+        except NotImplementedError:
+            got = "not-implemented"
+        except Exception as exc:  # noqa
+            got = type(exc).__name__
+        if name:
+            reqs.append(f"down-sel {name} image uint8 1,1,1 1,1,1 none 0")
+            meta.append(({"method": "selection", "name": name}, 0, got))
+        if got != "not-implemented":
+            ctx.oracle_fail("an unknown downscaling method name was not refused with NotImplementedError",
+                            {"name": name, "got": got})
     if ctx.driver_ok and reqs:
         for rep, (desc, c, want) in zip(core.driver_batch(reqs), meta):
             if rep != want:
